@@ -42,8 +42,8 @@ import (
 	"github.com/dadrus/heimdall/internal/truststore"
 	"github.com/dadrus/heimdall/internal/x"
 	"github.com/dadrus/heimdall/internal/x/errorchain"
+	"github.com/dadrus/heimdall/internal/x/hashx"
 	"github.com/dadrus/heimdall/internal/x/pkix"
-	"github.com/dadrus/heimdall/internal/x/stringx"
 )
 
 const defaultJWTAuthenticatorTTL = 10 * time.Minute
@@ -568,9 +568,9 @@ func (a *jwtAuthenticator) verifyTokenWithKey(
 
 func (a *jwtAuthenticator) calculateCacheKey(ep *endpoint.Endpoint, renderedURL, reference string) string {
 	digest := sha256.New()
-	digest.Write(ep.Hash())
-	digest.Write(stringx.ToBytes(renderedURL))
-	digest.Write(stringx.ToBytes(reference))
+	hashx.WriteBytes(digest, ep.Hash())
+	hashx.WriteString(digest, renderedURL)
+	hashx.WriteString(digest, reference)
 
 	return hex.EncodeToString(digest.Sum(nil))
 }
